@@ -217,4 +217,49 @@ theorem genFormatIntAlpha_eq (v : Int) : genFormatIntAlpha v = formatIntAlpha v 
       simp only [alpha_post_eq, liftErr, this]
   · simp [h]
 
+/-! ### `_format_page_label`, `labels` -/
+
+theorem genFormatPageLabel_eq (v : Int) (style : Option Bytes) :
+    genFormatPageLabel v style = formatPageLabel v style := by
+  cases style with
+  | none => rfl
+  | some s =>
+    unfold genFormatPageLabel formatPageLabel
+    by_cases hD : s = styleD
+    · subst hD; simp [format_page_label_chain, styleD, applyNumeral, Except.map]
+    by_cases hR : s = styleR
+    · subst hR
+      simp [format_page_label_chain, styleD, styleR, applyNumeral, genFormatIntRoman_eq]
+    by_cases hr : s = styler
+    · subst hr
+      simp [format_page_label_chain, styleD, styleR, styler, applyNumeral, genFormatIntRoman_eq]
+      cases formatIntRoman v <;> rfl
+    by_cases hA : s = styleA
+    · subst hA
+      simp [format_page_label_chain, styleD, styleR, styler, styleA, applyNumeral, genFormatIntAlpha_eq]
+    by_cases ha : s = stylea
+    · subst ha
+      simp [format_page_label_chain, styleD, styleR, styler, styleA, stylea, applyNumeral, genFormatIntAlpha_eq]
+      cases formatIntAlpha v <;> rfl
+    · simp only [hD, hR, hr, hA, ha, if_false]
+      simp only [styleD, styleR, styler, styleA, stylea] at hD hR hr hA ha
+      have e1 : (s == ([68] : Bytes)) = false := beq_eq_false_iff_ne.mpr hD
+      have e2 : (s == ([82] : Bytes)) = false := beq_eq_false_iff_ne.mpr hR
+      have e3 : (s == ([114] : Bytes)) = false := beq_eq_false_iff_ne.mpr hr
+      have e4 : (s == ([65] : Bytes)) = false := beq_eq_false_iff_ne.mpr hA
+      have e5 : (s == ([97] : Bytes)) = false := beq_eq_false_iff_ne.mpr ha
+      simp only [format_page_label_chain, List.find?, e1, e2, e3, e4, e5, format_page_label_else]
+
+/-- A non-final range of `labels` from the translated constants and arithmetic = the hand model's
+`rangeLabels` over `end − start` pages. -/
+theorem genRangeLabels_eq (d : LabelDict) (s e : Int) :
+    genRangeLabels d s e = rangeLabels d (e - s).toNat := by
+  unfold genRangeLabels rangeLabels labels_values labels_range_length pyRange
+  have h : d.st.getD labels_default_St + (e - s) - d.st.getD labels_default_St = e - s := by omega
+  simp only [h, List.map_map]
+  apply List.map_congr_left
+  intro j _
+  simp only [Function.comp, labelOf, firstValue, genFormatPageLabel_eq]
+  rfl
+
 end PdfVerif.Lemmas.LabelsGen
